@@ -536,13 +536,19 @@ func ruleErrorsPropagate(c *Ctx, r *Report, rule string) {
 		r.bad(rule, "anchors", "copyBlocks / copyBlock not found", "")
 		return
 	}
+	type errSite struct {
+		call *ast.CallExpr
+		ifs  *ast.IfStmt
+		fd   *ast.FuncDecl
+	}
+	var errIfs []errSite
 	for _, fd := range funcs {
 		pm := parentMap(fd.Body)
 		idx := 0
 		walkCalls(fd.Body, false, func(call *ast.CallExpr) {
 			name := c.calleeName(call)
 			isSetField := false
-			if id, ok := call.Fun.(*ast.Ident); ok && id.Name == "setField" {
+			if c.isFieldSetterCall(call) {
 				isSetField = true
 			}
 			if name != "copyBlock" && !isSetField {
@@ -554,19 +560,27 @@ func ruleErrorsPropagate(c *Ctx, r *Report, rule string) {
 			case *ast.ReturnStmt:
 				r.ok(rule, key, "returned")
 			case *ast.AssignStmt:
-				// err = f(...); next statement tests err and returns it
-				list, i := stmtListOf(pm, p)
+				// err = f(...); next statement tests err and returns it — or the same in an if header
+				var ifs *ast.IfStmt
+				if parentIf, isInit := pm[p].(*ast.IfStmt); isInit && parentIf.Init == ast.Stmt(p) {
+					ifs = parentIf
+				} else if list, i := stmtListOf(pm, p); list != nil && i+1 < len(list) {
+					ifs, _ = list[i+1].(*ast.IfStmt)
+				}
 				ok := false
-				if list != nil && i+1 < len(list) {
-					if ifs, isIf := list[i+1].(*ast.IfStmt); isIf {
-						if be, isB := stripParens(ifs.Cond).(*ast.BinaryExpr); isB && be.Op == token.NEQ && isNilIdent(be.Y) && c.isObj(be.X, c.objOf(p.Lhs[0])) {
-							// the body returns err on every path except the documented Name tolerance
+				if ifs != nil {
+					if atoms, pure := c.nnf(ifs.Cond, true, nil).conjuncts(); pure && len(atoms) == 1 {
+						if be, isB := atoms[0].E.(*ast.BinaryExpr); isB && ((be.Op == token.NEQ) == atoms[0].Pos) && isNilIdent(be.Y) && c.isObj(be.X, c.objOf(p.Lhs[0])) {
+							// the body returns err on every path except the documented Name tolerance (judged below)
 							ast.Inspect(ifs.Body, func(n ast.Node) bool {
 								if rs, isR := n.(*ast.ReturnStmt); isR && len(rs.Results) == 1 && c.isObj(rs.Results[0], c.objOf(p.Lhs[0])) {
 									ok = true
 								}
 								return true
 							})
+							if ok {
+								errIfs = append(errIfs, errSite{call, ifs, fd})
+							}
 						}
 					}
 				}
@@ -576,34 +590,94 @@ func ruleErrorsPropagate(c *Ctx, r *Report, rule string) {
 			}
 		})
 	}
-	// the Name tolerance
+	// the Name tolerance: the only place where an error is looked at and not returned
 	copyBlock := funcs[1]
-	gotos := 0
-	okTol := true
-	ast.Inspect(copyBlock.Body, func(n ast.Node) bool {
-		bs, ok := n.(*ast.BranchStmt)
-		if !ok || bs.Tok != token.GOTO {
-			return true
-		}
-		gotos++
-		facts := splitFacts(c.factsAt(copyBlock.Body, bs))
+	tolerated, okTol := 0, true
+	whyTol := ""
+	judge := func(facts []fact, site errSite) {
+		tolerated++
 		emptyName, mapErr := false, false
 		for _, f := range facts {
-			if be, ok := f.Cond.(*ast.BinaryExpr); ok && f.Pos && be.Op == token.EQL && c.fieldPath(be.X) == "<Block>.Name" {
-				if s, isS := c.strConst(be.Y); isS && s == "" {
-					emptyName = true
+			a := condAtom{E: stripParens(f.Cond), Pos: f.Pos, Init: f.Init}
+			if x, isEmpty, ok := c.emptyStringCmp(a); ok && isEmpty && c.fieldPath(x) == "<Block>.Name" {
+				emptyName = true
+			}
+			// the comma-ok result of err.(fieldMappingErr)
+			if id, ok := a.E.(*ast.Ident); ok && a.Pos {
+				def := c.initDef(f, id)
+				if def == ast.Expr(id) {
+					if d, n := c.singleDef(copyBlock.Body, c.objOf(id)); n == 1 {
+						def = d
+					}
+				}
+				if ta, ok := stripParens(def).(*ast.TypeAssertExpr); ok && ta.Type != nil && typeShort(c.typeOf(ta.Type)) == "fieldMappingErr" {
+					mapErr = true
 				}
 			}
-			if id, ok := f.Cond.(*ast.Ident); ok && f.Pos && id.Name == "ok" {
-				mapErr = true
+		}
+		isName := false
+		if len(site.call.Args) == 2 {
+			if s0, isS := c.strConst(site.call.Args[0]); isS && s0 == "Name" {
+				isName = true
 			}
 		}
-		if !emptyName || !mapErr {
+		if !emptyName || !mapErr || !isName {
 			okTol = false
+			whyTol = fmt.Sprintf("at %s (empty block name known: %v, field-mapping error known: %v, the Name call: %v)", c.pos(site.ifs.Pos()), emptyName, mapErr, isName)
 		}
-		return true
-	})
-	r.check(gotos <= 1 && okTol, rule, "name-tolerance", "a failed Name mapping is ignored only for an unnamed block and only for the field-mapping error", "copyBlock skips an error outside the single documented case (missing Name field while block.Name is empty)", c.pos(copyBlock.Pos()))
+	}
+	for _, site := range errIfs {
+		if site.fd != copyBlock {
+			// copyBlocks: every tested error must be returned unconditionally
+			if n := len(site.ifs.Body.List); n == 0 {
+				okTol, whyTol = false, "empty error branch at "+c.pos(site.ifs.Pos())
+			} else if _, isR := site.ifs.Body.List[n-1].(*ast.ReturnStmt); !isR {
+				okTol, whyTol = false, "an error is not returned at "+c.pos(site.ifs.Pos())
+			}
+			continue
+		}
+		// gotos out of the error branch
+		hasGoto := false
+		ast.Inspect(site.ifs.Body, func(n ast.Node) bool {
+			if bs, ok := n.(*ast.BranchStmt); ok && bs.Tok == token.GOTO {
+				hasGoto = true
+				judge(splitFacts(c.factsAt(copyBlock.Body, bs)), site)
+			}
+			return true
+		})
+		// falling off the end of the error branch
+		n := len(site.ifs.Body.List)
+		if n > 0 {
+			if _, isR := site.ifs.Body.List[n-1].(*ast.ReturnStmt); isR {
+				continue
+			}
+			if bs, isB := site.ifs.Body.List[n-1].(*ast.BranchStmt); isB && bs.Tok == token.GOTO && hasGoto {
+				continue
+			}
+		}
+		// facts at the end of the branch: negations of its leaving guards
+		var facts []fact
+		pure := true
+		for _, st := range site.ifs.Body.List {
+			inner, isIf := st.(*ast.IfStmt)
+			if !isIf || inner.Else != nil || len(inner.Body.List) == 0 {
+				pure = false
+				continue
+			}
+			if _, isR := inner.Body.List[len(inner.Body.List)-1].(*ast.ReturnStmt); !isR {
+				pure = false
+				continue
+			}
+			init, _ := inner.Init.(*ast.AssignStmt)
+			facts = append(facts, fact{inner.Cond, false, init})
+		}
+		if !pure {
+			okTol, whyTol = false, "the error branch at "+c.pos(site.ifs.Pos())+" can end without returning the error"
+			continue
+		}
+		judge(splitFacts(facts), site)
+	}
+	r.check(tolerated <= 1 && okTol, rule, "name-tolerance", "a failed Name mapping is ignored only for an unnamed block and only for the field-mapping error", "copyBlock skips an error outside the single documented case (missing Name field while block.Name is empty) "+whyTol, c.pos(copyBlock.Pos()))
 	// field loop: range over the sorted keys slice, single setField, no continue/break
 	okLoop := false
 	ast.Inspect(copyBlock.Body, func(n ast.Node) bool {
@@ -614,7 +688,7 @@ func ruleErrorsPropagate(c *Ctx, r *Report, rule string) {
 		calls, jumps := 0, 0
 		ast.Inspect(rs.Body, func(x ast.Node) bool {
 			if call, ok := x.(*ast.CallExpr); ok {
-				if id, ok := call.Fun.(*ast.Ident); ok && id.Name == "setField" {
+				if c.isFieldSetterCall(call) {
 					calls++
 				}
 			}
@@ -681,4 +755,23 @@ func ruleMapRange(c *Ctx, r *Report, rule string) {
 	if n == 0 {
 		r.ok(rule, "library", "no range over a map")
 	}
+}
+
+// isFieldSetterCall: the call invokes a local closure of copyBlock with the
+// shape of the field setter, func(name string, x any) error (whatever the
+// variable is called).
+func (c *Ctx) isFieldSetterCall(call *ast.CallExpr) bool {
+	id, ok := call.Fun.(*ast.Ident)
+	if !ok {
+		return false
+	}
+	v, ok := c.objOf(id).(*types.Var)
+	if !ok || v.IsField() || v.Parent() == nil || v.Parent() == v.Pkg().Scope() {
+		return false
+	}
+	sig, ok := v.Type().Underlying().(*types.Signature)
+	if !ok || sig.Params().Len() != 2 || sig.Results().Len() != 1 {
+		return false
+	}
+	return types.TypeString(sig.Params().At(0).Type(), nil) == "string" && types.TypeString(sig.Results().At(0).Type(), nil) == "error"
 }
